@@ -100,7 +100,7 @@ def hide_objective(t):
 
 def equiv(vec=None):
     return Equiv(vec=vec, rewrites=std_rewrites() + [unpack_rewrite, uniform_draws, hide_objective],
-                 modelled={"numpy.random.choice", "numpy.random.rand", "numpy.unique", "builtins.int", "builtins.isinstance", "scipy.optimize.minimize_scalar",
+                 modelled={"numpy.random.choice", "numpy.random.rand", "numpy.unique", "numpy.arange", "builtins.int", "builtins.isinstance", "scipy.optimize.minimize_scalar",
                            "scipy.special.zeta", "numpy.concatenate", "numpy.repeat", "builtins.enumerate", "builtins.dict"})
 
 
